@@ -139,6 +139,96 @@ type c15Case struct {
 	Name string `json:"name"`
 }
 
+// c15InHandler: constructors are called from inside a change handler of another characteristic.
+var c15InHandler, c15Toggle bool
+var c15Trigger = characteristic.NewBool("F0000099-0000-1000-8000-0123456789AB")
+
+var c15Job func()
+
+func init() {
+	c15Trigger.OnValueUpdate(func(*characteristic.Characteristic, interface{}, interface{}) {
+		if c15Job != nil {
+			c15Job()
+		}
+	})
+}
+
+func c15Build(ct catalog.Ctor) (v interface{}, err error) {
+	if !c15InHandler {
+		return ct.Build()
+	}
+	inside := ""
+	c15Job = func() {
+		v, err = ct.Build()
+		if err == nil {
+			inside = c15ValuesOf(v) // what the caller sees when the constructor returns
+		}
+	}
+	c15Toggle = !c15Toggle
+	c15Trigger.SetValue(c15Toggle)
+	c15Job = nil
+	if err == nil {
+		if ref, rerr := ct.Build(); rerr == nil {
+			if want := c15ValuesOf(ref); inside != want {
+				c15Incomplete = append(c15Incomplete, fmt.Sprintf("%s: built inside a change handler it holds %s when the constructor returns; built outside %s", ct.Name, trunc([]byte(inside), 150), trunc([]byte(want), 150)))
+			}
+		}
+	}
+	return
+}
+
+var c15Incomplete []string
+
+// c15ValuesOf lists type=value of every characteristic of a characteristic / service / accessory object.
+func c15ValuesOf(v interface{}) string {
+	var chs []*characteristic.Characteristic
+	switch {
+	case catalog.Char(v) != nil:
+		chs = append(chs, catalog.Char(v))
+	case catalog.Svc(v) != nil:
+		chs = append(chs, catalog.Svc(v).Characteristics...)
+	case catalog.Acc(v) != nil:
+		for _, sv := range catalog.Acc(v).Services {
+			chs = append(chs, sv.Characteristics...)
+		}
+	}
+	var out []string
+	for _, ch := range chs {
+		if ch == nil {
+			out = append(out, "<nil>")
+			continue
+		}
+		out = append(out, fmt.Sprintf("%s=%v", ch.Type, ch.Value))
+	}
+	return strings.Join(out, " ")
+}
+
+// c15VendorPrelude creates what a vendor's own code creates before it touches the catalog.
+func c15VendorPrelude(md *metadata) {
+	n := 0
+	for _, m := range md.Characteristics {
+		// a vendor type id whose first group is the catalog type's, on another base UUID
+		short := minify(m.UUID)
+		vendor := fmt.Sprintf("%08s-0000-1000-8000-0123456789AB", short)
+		vendor = strings.ReplaceAll(vendor, " ", "0")
+		b := characteristic.NewBool(vendor)
+		b.SetValue(true)
+		for _, key := range []string{"MinimumValue", "MaximumValue", "StepValue"} {
+			if x, ok := constraintCI(m.Constraints, key); ok {
+				if f, ok := num(x); ok {
+					n++
+					fl := characteristic.NewFloat(fmt.Sprintf("F%07d-0000-1000-8000-0123456789AB", n))
+					r := float64(float32(f)) // a bound that went through a float32 (a sensor library, a config file)
+					fl.SetMinValue(r)
+					fl.SetMaxValue(r + 1)
+					fl.SetStepValue(r)
+					fl.SetValue(r)
+				}
+			}
+		}
+	}
+}
+
 func c15Run(c *fw.Ctx) {
 	md, err := loadMetadata()
 	if err != nil {
@@ -146,6 +236,21 @@ func c15Run(c *fw.Ctx) {
 		return
 	}
 	rep := func(sig, desc string) { c.Report(sig, desc, c15Case{What: sig, Name: desc}) }
+	order := "catalog-first"
+	if c.Shard == 1 {
+		// The second worker process models a program in which application code ran BEFORE the catalog was used: vendor
+		// characteristics configured from float32 values next to every catalog bound, vendor type ids that share their
+		// first group with a catalog type, and every constructor called from inside a change handler.
+		order = "application-code-first"
+		c15VendorPrelude(md)
+		c15InHandler = true
+		defer func() { c15InHandler = false }()
+		orig := rep
+		rep = func(sig, desc string) {
+			orig(sig+"/after-application-code", desc+" (application code ran first: vendor characteristics, constructors called from a change handler)")
+		}
+	}
+	c.Class("order:" + order)
 
 	// 1. every constructor returns a usable object; Type constants agree
 	charByType := map[string][]string{}
@@ -153,7 +258,7 @@ func c15Run(c *fw.Ctx) {
 	objs := map[string]interface{}{}
 	for _, ct := range catalog.CharacteristicCtors {
 		c.Eval(1)
-		v, err := ct.Build()
+		v, err := c15Build(ct)
 		if err != nil {
 			rep("ctor-panic/characteristic."+ct.Name, ct.Name+": "+err.Error())
 			continue
@@ -258,7 +363,7 @@ func c15Run(c *fw.Ctx) {
 	svcChars := map[string][]string{}
 	for _, ct := range catalog.ServiceCtors {
 		c.Eval(1)
-		v, err := ct.Build()
+		v, err := c15Build(ct)
 		if err != nil {
 			rep("ctor-panic/service."+ct.Name, ct.Name+": "+err.Error())
 			continue
@@ -308,6 +413,10 @@ func c15Run(c *fw.Ctx) {
 			}
 		}
 	}
+	for _, d := range c15Incomplete {
+		rep("built-in-handler-incomplete/"+strings.SplitN(d, ":", 2)[0], d)
+	}
+	c15Incomplete = nil
 	// 3b. interference between constructions: all services (and accessories) are built again, kept alive together,
 	// and each is inspected only after all the others exist
 	type kept struct {
@@ -318,14 +427,14 @@ func c15Run(c *fw.Ctx) {
 	var all []kept
 	for round := 0; round < 2; round++ {
 		for _, ct := range catalog.ServiceCtors {
-			v, err := ct.Build()
+			v, err := c15Build(ct)
 			if err != nil || catalog.Svc(v) == nil {
 				continue
 			}
 			all = append(all, kept{name: ct.Name, svc: v})
 		}
 		for _, ct := range catalog.AccessoryCtors {
-			if v, err := ct.Build(); err == nil && catalog.Acc(v) != nil {
+			if v, err := c15Build(ct); err == nil && catalog.Acc(v) != nil {
 				for i, sv := range catalog.Acc(v).Services {
 					all = append(all, kept{name: fmt.Sprintf("%s.Services[%d]", ct.Name, i), svc: sv})
 				}
@@ -334,7 +443,7 @@ func c15Run(c *fw.Ctx) {
 	}
 	solo := map[string]string{}
 	for _, ct := range catalog.ServiceCtors {
-		if v, err := ct.Build(); err == nil && catalog.Svc(v) != nil {
+		if v, err := c15Build(ct); err == nil && catalog.Svc(v) != nil {
 			var ts []string
 			for _, ch := range catalog.Svc(v).Characteristics {
 				ts = append(ts, ch.Type)
@@ -365,7 +474,7 @@ func c15Run(c *fw.Ctx) {
 	// 4. accessories
 	for _, ct := range catalog.AccessoryCtors {
 		c.Eval(1)
-		v, err := ct.Build()
+		v, err := c15Build(ct)
 		if err != nil {
 			rep("ctor-panic/accessory."+ct.Name, ct.Name+": "+err.Error())
 			continue
@@ -395,8 +504,8 @@ func init() {
 	fw.Register(&fw.Check{
 		ID:          "C15",
 		Level:       "exploration",
-		Rule:        "depth-1 exhaustive enumeration of the finite catalog: every exported New* constructor found by go/parser in /repo's characteristic, service and accessory packages at check time is called; every characteristic and service entry of gen/metadata.json is matched by type id and compared field by field (format, permissions, unit, min/max/step with case-insensitive keys, default value type and range, required characteristics, duplicate types, Type* constants); all services and accessories are then constructed again, kept alive together and re-inspected (a constructor must not disturb objects built before it). distinct_nontrivial = distinct constructors that returned a usable object",
-		Shards:      func(string) int { return 1 },
+		Rule:        "depth-1 exhaustive enumeration of the finite catalog: every exported New* constructor found by go/parser in /repo's characteristic, service and accessory packages at check time is called; every characteristic and service entry of gen/metadata.json is matched by type id and compared field by field (format, permissions, unit, min/max/step with case-insensitive keys, default value type and range, required characteristics, duplicate types, Type* constants); all services and accessories are then constructed again, kept alive together and re-inspected (a constructor must not disturb objects built before it). A second worker process repeats everything in a program where application code ran first: vendor characteristics whose bounds went through float32 next to every catalog bound, vendor type ids sharing their first group with each catalog type, and every constructor called from inside a change handler. distinct_nontrivial = distinct constructors that returned a usable object",
+		Shards:      func(string) int { return 2 },
 		Run:         c15Run,
 		Replay:      func(c *fw.Ctx, raw json.RawMessage) { c15Run(c) },
 		Budget:      func(string) time.Duration { return 5 * time.Minute },
